@@ -118,8 +118,9 @@ func main() {
 	cfg := &packages.Config{
 		Mode: packages.NeedName | packages.NeedFiles | packages.NeedCompiledGoFiles | packages.NeedImports |
 			packages.NeedDeps | packages.NeedTypes | packages.NeedSyntax | packages.NeedTypesInfo | packages.NeedTypesSizes | packages.NeedModule,
-		Dir:     *repo,
-		Overlay: overlay,
+		Dir:        *repo,
+		Overlay:    overlay,
+		BuildFlags: []string{"-tags=gosym"},
 		Env:     append(os.Environ(), "GOFLAGS=-mod=mod", "GOPROXY=off", "GOSUMDB=off", "GOTOOLCHAIN=local", "CGO_ENABLED=0"),
 	}
 	pkgs, err := packages.Load(cfg, *pkgPat)
